@@ -15,6 +15,7 @@ import OAP.Model.Stream
 import OAP.Proofs.Ring
 import OAP.Proofs.Stream
 import OAP.Proofs.StreamComplete
+import OAP.Proofs.Reading
 import OAP.Props.C02
 namespace OAP.C03
 open OAP OAP.Frame
@@ -427,5 +428,157 @@ example : run .v1 gz0 0 [3, 7, 0, 0, 2, 9, 8, 65, 5, 0, 0, 1, 2, 0, 3, 0, 0, 1, 
       [3, 7, 0, 0, 2, 9, 8, 65, 5, 0, 0, 1, 2, 0, 3, 0, 0, 1, 1] := by decide
   rw [e] at this
   rw [this]; decide
+
+/-! ### Layer 5: the TCP connection's reader goroutine (`(*tcpConn).reading`, go/client/tcp_conn.go)
+
+The reader does not write every socket read into one ring (that is `rfeed` above). When the left-over
+ring `conn.readBuf` is empty it decodes the chunk in place through `ringbuffer.NewWithData(conn.buf[:n])`
+and saves what is left with `first, _ := buffer.PeekAll(); conn.readBuf.Write(first)`; otherwise it
+writes the chunk behind the left-over and decodes `conn.readBuf`. The parked header is shared by both
+paths. Model: OAP/Model/Client/Reading.lean; proofs: OAP/Proofs/Reading.lean. -/
+section TcpReader
+open OAP.Reading
+
+/-- KEY LEMMA of the fast path: on every ring reachable from `NewWithData(d)` by `Retrieve` / `Read` /
+peeks only (no `Write`) — whatever was consumed, everything, nothing; empty `d` included — the write
+position is still 0, so `PeekAll` returns an EMPTY second slice and ALL unread bytes, a suffix of `d`,
+in the first: keeping only `first` loses nothing -/
+theorem tcp_fast_path_first_is_everything (d : Bytes) (b : Ring) (h : Reach (Ring.newWithData d) b) :
+    b.WF ∧ b.w = 0 ∧ b.peekAll.2 = [] ∧ b.peekAll.1 = b.abs ∧ ∃ k, b.abs = d.drop k := by
+  obtain ⟨h1, h2, _, _, h3, h4, h5⟩ := reach_newWithData d b h
+  exact ⟨h1, h2, h3, h4, h5⟩
+
+/-- one `Unpack` call, and the whole `readPacket` loop, only move the ring by `Retrieve` / `Read` -/
+theorem tcp_unpack_only_consumes (v : Ver) (gz : GzOracle) (codec : UInt8) (pend : Option Header) (rb : Ring) :
+    Reach rb (unpackRing v gz codec pend rb).rb ∧ Reach rb (readPacket v gz codec pend rb).2.2.2 :=
+  ⟨unpackRing_reach v gz codec pend rb rb .refl, readPacket_reach v gz codec pend rb⟩
+
+/-- `readPacket` is the read loop `drainRing` of Layer 3 on every well-formed ring (its fuel never runs out) -/
+theorem tcp_readPacket_is_drainRing (v : Ver) (gz : GzOracle) (codec : UInt8) (pend : Option Header)
+    (rb : Ring) (wf : rb.WF) : readPacket v gz codec pend rb = drainRing v gz codec pend rb :=
+  readPacket_eq_drainRing v gz codec pend rb wf
+
+/-- REFINEMENT: from any well-formed empty `conn.readBuf`, for any sequence of socket reads, the
+reader goroutine delivers the packets and reaches the verdict of the abstract queue connection -/
+theorem tcp_reader_eq_feed (v : Ver) (gz : GzOracle) (codec : UInt8) (rb0 : Ring) (wf : rb0.WF)
+    (he : rb0.abs = []) (chunks : List Bytes) :
+    (reading v gz codec rb0 chunks).obs = (feed v gz codec chunks).obs :=
+  reading_eq_feed v gz codec rb0 wf he chunks
+
+/-- … so what it observes is the one-shot read loop over the concatenated stream -/
+theorem tcp_reader_spec (v : Ver) (gz : GzOracle) (codec : UInt8) (rb0 : Ring) (wf : rb0.WF)
+    (he : rb0.abs = []) (chunks : List Bytes) :
+    (reading v gz codec rb0 chunks).obs =
+      ((run v gz codec chunks.flatten).1,
+       if (run v gz codec chunks.flatten).2.1 = .more then none else some (run v gz codec chunks.flatten).2.1) :=
+  reading_spec v gz codec rb0 wf he chunks
+
+/-- the reader goroutine never panics in the decoder or the ring buffer, whatever arrives -/
+theorem tcp_reader_no_panic (v : Ver) (gz : GzOracle) (codec : UInt8) (rb0 : Ring) (wf : rb0.WF)
+    (he : rb0.abs = []) (chunks : List Bytes) (w : String) :
+    (reading v gz codec rb0 chunks).stopped ≠ some (.panic w) :=
+  reading_no_panic v gz codec rb0 wf he chunks w
+
+/-- the reader's invariant (see `Reading.RInv`): well-formed left-over ring, a parked header the decoder
+itself parks, and — while running — parked header ++ left-over bytes = the undelivered stream -/
+theorem tcp_reader_invariant (v : Ver) (gz : GzOracle) (codec : UInt8) (rb0 : Ring) (wf : rb0.WF)
+    (he : rb0.abs = []) (chunks : List Bytes) :
+    RInv v gz codec (reading v gz codec rb0 chunks) chunks.flatten :=
+  reading_invariant v gz codec rb0 wf he chunks
+
+/-- SEGMENTATION INDEPENDENCE of the TCP reader, general form: two well-formed empty left-over rings
+(any capacities, any offsets), two segmentations of the same byte stream (cuts anywhere, empty reads
+allowed) — hence any two interleavings of fast-path and slow-path reads — same packets, same verdict -/
+theorem tcp_reader_segmentation_independent' (v : Ver) (gz : GzOracle) (codec : UInt8) (rb₁ rb₂ : Ring)
+    (wf₁ : rb₁.WF) (wf₂ : rb₂.WF) (he₁ : rb₁.abs = []) (he₂ : rb₂.abs = [])
+    (chunks₁ chunks₂ : List Bytes) (h : chunks₁.flatten = chunks₂.flatten) :
+    (reading v gz codec rb₁ chunks₁).obs = (reading v gz codec rb₂ chunks₂).obs := by
+  rw [reading_spec v gz codec rb₁ wf₁ he₁, reading_spec v gz codec rb₂ wf₂ he₂, h]
+
+/-- SEGMENTATION INDEPENDENCE of the TCP reader as dialled: `readBuf = ringbuffer.New(ReadBufferSize)`,
+for any two buffer sizes -/
+theorem tcp_reader_segmentation_independent (v : Ver) (gz : GzOracle) (codec : UInt8) (cap₁ cap₂ : Nat)
+    (chunks₁ chunks₂ : List Bytes) (h : chunks₁.flatten = chunks₂.flatten) :
+    (reading v gz codec (Ring.new cap₁) chunks₁).obs = (reading v gz codec (Ring.new cap₂) chunks₂).obs :=
+  tcp_reader_segmentation_independent' v gz codec _ _ (ring_new cap₁).1 (ring_new cap₂).1
+    (ring_new cap₁).2 (ring_new cap₂).2 chunks₁ chunks₂ h
+
+/-- THE TCP READER DELIVERS EACH FRAME: for a stream of back-to-back valid frames of the published
+layout, cut into socket reads in ANY way, from any well-formed empty `conn.readBuf`, the reader
+delivers exactly one packet per frame, in order — the packet the one-shot decoder returns on that
+frame alone — and no error -/
+theorem tcp_reader_delivers_frames (v : Ver) (gz : GzOracle) (codec : UInt8) (fs : List Spec.Frame)
+    (hv : ∀ f ∈ fs, ∃ content ps, ValidFrame v gz f content ps)
+    (rb0 : Ring) (wf : rb0.WF) (he : rb0.abs = [])
+    (chunks : List Bytes) (hc : chunks.flatten = (fs.map (Spec.encode v)).flatten) :
+    ∃ qs, (reading v gz codec rb0 chunks).obs = (qs, none) ∧
+      Forall₂ (fun f q => unpackBytes v gz codec (Spec.encode v f) = .ok q) fs qs := by
+  rw [reading_eq_feed v gz codec rb0 wf he chunks]
+  exact stream_yields_each_frame v gz codec fs hv chunks hc
+
+/-- … with the packets named: the ones the frames denote (`Denotes`, OAP/Proofs/StreamComplete.lean) -/
+theorem tcp_reader_delivers_denoted (v : Ver) (gz : GzOracle) (codec : UInt8) (fs : List Spec.Frame)
+    (qs : List Packet) (h : Forall₂ (Denotes v gz codec) fs qs)
+    (cap : Nat) (chunks : List Bytes) (hc : chunks.flatten = (fs.map (Spec.encode v)).flatten) :
+    (reading v gz codec (Ring.new cap) chunks).obs = (qs, none) := by
+  rw [reading_eq_feed v gz codec _ (ring_new cap).1 (ring_new cap).2 chunks]
+  exact feed_frames v gz codec fs qs h chunks hc
+
+/-! non-vacuity: the two v1 frames of Layer 4 (push `03 07 000002 09 08`, request `41 05 00000102 0003 000001 01`),
+`readBuf = New(8)` -/
+
+private def pPush : Packet := { type := .push, cmd := 7, body := [9, 8] }
+private def pReq : Packet := { type := .request, cmd := 5, rid := 258, timeout := 3, body := [1] }
+private def chunkA2 : Bytes := [0, 2, 9, 8, 65, 5, 0, 0, 1, 2, 0, 3, 0, 0, 1, 1]
+
+/-- (a) the first read `03 07 00` ends in mid-header. FAST path: byte 0 goes into the parked header
+while the temporary ring is decoded, `07 00` is the left-over copied into `readBuf` — the parked
+header belongs to bytes that now live in the other buffer; undelivered = `03 07 00` -/
+private def sA := reading .v1 gz0 0 (Ring.new 8) [[3, 7, 0]]
+example : pathOf { readBuf := Ring.new 8 } [3, 7, 0] = .fast := by decide
+example : sA.readBuf.abs = [7, 0] ∧ sA.pkts = [] ∧ sA.stopped = none := by decide
+example : sA.pend.map (fun h => (h.beginUnpack, h.isUnpacked, h.type)) = some (true, false, 3) := by decide
+example : sA.unread .v1 = [3, 7, 0] := by decide
+/-- … the next read takes the SLOW path (write behind `07 00`, decode `readBuf`, which has to grow
+from 8 to 18 bytes) and both packets come out -/
+example : pathOf sA chunkA2 = .slow := by decide
+example : (reading .v1 gz0 0 (Ring.new 8) [[3, 7, 0], chunkA2]).obs = ([pPush, pReq], none) := by decide
+example : (reading .v1 gz0 0 (Ring.new 8) [[3, 7, 0], chunkA2]).readBuf.size = 18 := by decide
+
+/-- (b) the first read delivers the push packet and leaves a partial second frame `41 05 00`: FAST
+path, byte 0 of the second frame parked, `05 00` left over -/
+private def sB := reading .v1 gz0 0 (Ring.new 8) [[3, 7, 0, 0, 2, 9, 8, 65, 5, 0]]
+example : pathOf { readBuf := Ring.new 8 } [3, 7, 0, 0, 2, 9, 8, 65, 5, 0] = .fast := by decide
+example : sB.pkts = [pPush] ∧ sB.readBuf.abs = [5, 0] ∧ sB.stopped = none := by decide
+example : sB.unread .v1 = [65, 5, 0] := by decide
+example : pathOf sB [0, 1, 2, 0, 3, 0, 0, 1, 1] = .slow := by decide
+example : (reading .v1 gz0 0 (Ring.new 8) [[3, 7, 0, 0, 2, 9, 8, 65, 5, 0], [0, 1, 2, 0, 3, 0, 0, 1, 1]]).obs =
+    ([pPush, pReq], none) := by decide
+
+/-- (c) a read that ends inside the body: the COMPLETE header is parked on the fast path, `09` is the
+left-over; an empty read is skipped; the slow path then finishes the frame, the left-over ring is
+empty again and the following read is decoded in place (fast) -/
+private def sC := reading .v1 gz0 0 (Ring.new 8) [[3, 7, 0, 0, 2, 9]]
+example : sC.readBuf.abs = [9] ∧ sC.unread .v1 = [3, 7, 0, 0, 2, 9] := by decide
+example : sC.pend.map (fun h => (h.isUnpacked, h.bodyLength)) = some (true, 2) := by decide
+example : pathOf sC [] = .skip ∧ pathOf sC [8] = .slow := by decide
+example : pathOf (reading .v1 gz0 0 (Ring.new 8) [[3, 7, 0, 0, 2, 9], [], [8]]) [65] = .fast := by decide
+example : (reading .v1 gz0 0 (Ring.new 8)
+    [[3, 7, 0, 0, 2, 9], [], [8], [65, 5, 0, 0, 1, 2, 0, 3, 0, 0, 1, 1]]).obs = ([pPush, pReq], none) := by decide
+
+/-- (d) an error closes the connection: type 0 is invalid; later reads are ignored -/
+example : (reading .v1 gz0 0 (Ring.new 8) [[3, 7, 0, 0, 2, 9, 8, 0, 1], [3, 7, 0, 0, 2, 9, 8]]).obs =
+    ([pPush], some (.err "invalid packet type")) := by decide
+example : pathOf (reading .v1 gz0 0 (Ring.new 8) [[3, 7, 0, 0, 2, 9, 8, 0, 1]]) [3] = .returned := by decide
+
+/-- the general theorem on this stream: every segmentation, every buffer size -/
+example (cap : Nat) (chunks : List Bytes)
+    (hc : chunks.flatten = [3, 7, 0, 0, 2, 9, 8, 65, 5, 0, 0, 1, 2, 0, 3, 0, 0, 1, 1]) :
+    (reading .v1 gz0 0 (Ring.new cap) chunks).obs = ([pPush, pReq], none) := by
+  have h : Forall₂ (Denotes .v1 gz0 0) [fPush, fReq] [pPush, pReq] :=
+    .cons ⟨_, _, fPush_valid, by decide⟩ (.cons ⟨_, _, fReq_valid, by decide⟩ .nil)
+  exact tcp_reader_delivers_denoted .v1 gz0 0 _ _ h cap chunks (by rw [hc]; decide)
+
+end TcpReader
 
 end OAP.C03
